@@ -83,8 +83,12 @@ class GlobalGenMonitor(Monitor):
         self._inject()
 
     def on_trial(self, w, name, verdict, pre, post):
+        # did this trial move the configuration by more than rounding (a continuously distributed change)?
+        moved = bool(post["n"] != pre["n"]
+                     or np.max(np.abs(post["positions"] - pre["positions"]), initial=0.0) > 1e-9
+                     or np.max(np.abs(post["cellarr"] - pre["cellarr"])) > 1e-9)
         self.events.append(("trial", name, repr(verdict), _h(post["positions"], post["cellarr"], w.atoms.numbers,
-                                                                repr(post["last_e"])), int(post["n"])))
+                                                                repr(post["last_e"])), int(post["n"]), moved))
 
     def on_step_end(self, w):
         self._compare(w, "step")
@@ -273,12 +277,13 @@ class C06(HistoryCampaign):
         # different seeds must differ - judged on runs whose digest depends on drawn numbers at all
         # (the configuration changed at least twice - constraints or all-negative labels can freeze a run)
         # ... through continuously distributed numbers: deletions only pick one of a few labels, two seeds can
-        # coincide on them by chance; count configuration changes that did not shrink the system
+        # coincide on them by chance; count configuration changes that did not shrink the system and are larger than
+        # rounding (a fully masked deformation is the identity: re-scaling the atoms only changes last bits)
         cont = 0
         prev = None
         for e in a["events"]:
             if e[0] == "trial":
-                if prev is not None and e[3] != prev[3] and e[4] >= prev[4]:
+                if prev is not None and e[3] != prev[3] and e[4] >= prev[4] and e[5]:
                     cont += 1
                 prev = e
         random_dependent = cont >= 2 or len({e[2] for e in a["events"] if e[0] == "fbstep"}) >= 2
